@@ -27,6 +27,7 @@ import (
 	"net/url"
 	"os"
 	"runtime"
+	"strings"
 	"sync"
 	"sync/atomic"
 	"testing"
@@ -1245,9 +1246,15 @@ func TestVerifC11(t *testing.T) {
 	for i := range shared {
 		shared[i] = c11NewPlug(i)
 	}
+	byClass := map[string]int{}
 	keep := func(cm []*c11Mismatch) {
 		nmm += len(cm)
 		for _, m := range cm {
+			cls := m.Kind + " / " + m.Fam
+			if i := strings.Index(m.Variant, "procs="); i >= 0 {
+				cls += " / blocked-In " + m.Variant[i:]
+			}
+			byClass[cls]++
 			if len(mms) < 60 {
 				mms = append(mms, m)
 			}
@@ -1281,7 +1288,7 @@ func TestVerifC11(t *testing.T) {
 	}
 	total.Requests += total.ConcRequests
 
-	res := map[string]interface{}{"executed": total.Cases, "stats": total, "mismatches": mms, "mismatch_count": nmm,
+	res := map[string]interface{}{"executed": total.Cases, "stats": total, "mismatches": mms, "mismatch_count": nmm, "mismatch_classes": byClass,
 		"read_buf_len": readBufDefaultLen, "gomaxprocs": runtime.GOMAXPROCS(0)}
 	b, _ := json.Marshal(res)
 	if err := os.WriteFile(out, b, 0o644); err != nil {
